@@ -48,14 +48,18 @@ ValidChain(e) ==
     /\ e.start \in DOMAIN e.certs
     /\ C!ValidFrom(CertSet(e), Proj(e.certs[e.start]), Len(e.certs) + 1)
 
+Explained(e) == e.ev = "VerifyChain" /\ (e.accepted => ValidChain(e))
+
 TVerifyChain ==
     /\ IsEvent("VerifyChain")
-    /\ E.accepted => ValidChain(E)
+    /\ Explained(E)
 
 -----------------------------------------------------------------------------
 MatchesKnown(e, k) == \A f \in DOMAIN k.match : f \in DOMAIN e /\ e[f] = k.match[f]
+(* a listed known finding excuses an event only if the contract does not explain it *)
 TKnown ==
     /\ l <= Len(Rec) /\ Rec[l].seq = l
+    /\ ~Explained(Rec[l])
     /\ \E i \in DOMAIN Known :
           /\ MatchesKnown(Rec[l], Known[i])
           /\ PrintT(<<"KNOWN-USED", ToJson([id |-> Known[i].id, seq |-> l])>>)
